@@ -55,6 +55,9 @@ def run(ctx):
     conds += hc.conditions("_acc", ctx.tier, carve, replace_modes=(True,) if ctx.tier == "quick" else (True, False), merge_modes=(True,))
     for name, multi in (("PythonCommentStyle", False), ("CCommentStyle", True), ("HtmlCommentStyle", True)):
         conds.append(xh.Cond(f"acc {name} multi={multi} --merge-copyrights onto a header that already states a spaced year range for the same holder", "HDR.py", "_acc", {"style": name, "multi": multi, "replace": True, "merge": True, "nlines": 2, "old_same_holder": True, "carve": carve}, timeout=400 if ctx.tier == "quick" else 2000, twin="_acc_reach"))
+    for name, multi in (("PythonCommentStyle", False), ("CCommentStyle", True), ("EmptyCommentStyle", False), ("HtmlCommentStyle", True)):
+        for old in ("contributor-only", "trailing-ws"):
+            conds.append(xh.Cond(f"acc {name} multi={multi} onto an existing header of kind '{old}'", "HDR.py", "_acc", {"style": name, "multi": multi, "replace": True, "nlines": 2, "old_kind": old, "carve": carve}, timeout=400 if ctx.tier == "quick" else 2000, twin="_acc_reach"))
     ctx.functions_encoded = ["reuse.header.create_header (existing info extracted from the found header and unioned), find_and_replace_header, add_new_header", "reuse.ReuseInfo.union / copy", "reuse.copyright.merge_copyright_lines (with --merge-copyrights)", "reuse.header._create_new_header post-condition"]
     ctx.bounds = dict(hc.BOUNDS, step="ONE annotate step from any pre-state in the bound - incl. a header the tool wrote earlier (top, middle, after a shebang) - in replace and --no-replace mode, with and without --merge-copyrights; the post-state is again a tool-written header, so one step covers sequences of such steps")
     ctx.stubs = hc.STUBS
